@@ -128,7 +128,7 @@ def chain_of(dump, tid):
 
 def run(ctx):
     ctx.check_theorems("ActsModel.Props.C06")
-    n = 250 if ctx.tier == "quick" else 6000
+    n = 1000 if ctx.tier == "quick" else 6000
     scs = [gen_scenario(ctx.seed, i) for i in range(n)]
     results = ctx.harness("run", scs)
     models = ctx.driver([opcorr.model_request(sc) for sc in scs], tag="dm")
@@ -276,9 +276,16 @@ def run(ctx):
                 last = o
         if last is None or last["state"] not in ("completed",):
             continue
+        # a step that was skipped by its own `if` hands over to its successor; one that was closed while it ran (skipped as an open task
+        # beneath a task that failed, or as the sibling of a step in which an act failed) hands over only if something beneath it was
+        # still open and is answered later: both outcomes are accepted for such an instance, never more than one run of the successor
+        ran = set()
+        for _, o in obs_of(res, {"tr"}):
+            if o.get("pid") == "p1" and o.get("new") in ("running", "interrupted"):
+                ran.add(o["tid"])
         inst = {}
         for t in last["tasks"]:
-            inst.setdefault(t["nid"], []).append(t["state"])
+            inst.setdefault(t["nid"], []).append("closed" if (t["state"] == "skipped" and t["tid"] in ran) else t["state"])
         # per handler list h1..hn: h1 runs once per caught error; h(k+1) runs once per instance of h(k) that handed over (completed / skipped),
         # and not at all after an instance of h(k) that failed (its error went to an outer catch) or was closed otherwise
         taken = {}
@@ -286,14 +293,16 @@ def run(ctx):
             taken[tuple(lst)] = taken.get(tuple(lst), 0) + 1
         for lst, ncaught in taken.items():
             want = ncaught
+            maybe = 0      # instances of the predecessor that were closed while they ran: whether they still hand over depends on what was open beneath them
             for j, sid in enumerate(lst):
                 got = len(inst.get(sid, []))
-                if got != want:
+                if not (want <= got <= want + maybe):
                     flagged.add(k)
                     ctx.violation("C06|catch-steps-not-run-once", f"catch step {sid} (step {j + 1} of its handler) ran {got} times, expected {want} ({ncaught} caught error(s); predecessors {[(x, inst.get(x)) for x in lst[:j]]}) although the process completed",
                                   {"scenario": sc, "catch_steps": list(lst)})
                     break
                 want = sum(1 for st in inst.get(sid, []) if st in ("completed", "skipped"))
+                maybe = sum(1 for st in inst.get(sid, []) if st == "closed")
             if k in flagged:
                 break
     ctx.sample({"scenario": scs[0]["id"], "model": scs[0]["models"][0], "ops": scs[0]["ops"][:8]}, limit=1)
